@@ -593,6 +593,28 @@ theorem compute_time_step_array_order_independent (sqrt : α → α) (arrs arrs'
     factors_array_order_independent arrs arrs' hp,
     hmin_array_order_independent arrs arrs' hwf hp]
 
+/-- More particles never raise `hmin`: if every smoothing length present in
+`arrs` is also present in `arrs'` (particles were added, arrays were split or
+merged), the new minimum exists and is ≤ the old one.  (A scan that stops
+early or skips an array breaks this.) -/
+theorem hmin_antitone_in_particles (arrs arrs' : List (Arr α)) (hwf : WF arrs) (hwf' : WF arrs')
+    (hsub : ∀ x ∈ allH arrs, x ∈ allH arrs') (h : α) (hh : hMinimum arrs = some h) :
+    ∃ h', hMinimum arrs' = some h' ∧ h' ≤ h := by
+  have h1 := hMinimum_isExtMin arrs hwf
+  have h2 := hMinimum_isExtMin arrs' hwf'
+  rw [hh] at h1
+  obtain ⟨hm, _⟩ := h1
+  cases hm' : hMinimum arrs' with
+  | none =>
+    rw [hm'] at h2
+    have : allH arrs' = [] := h2
+    have hx := hsub h hm
+    rw [this] at hx
+    exact absurd hx (by simp)
+  | some m' =>
+    rw [hm'] at h2
+    exact ⟨m', rfl, h2.2 h (hsub h hm)⟩
+
 /-- non-vacuity: the same five particles split and ordered in two ways -/
 example :
     let a : Arr ℚ := { nAll := 3, hAll := [3, 1, 2], dtAdapt := some [5, 4, 6],
